@@ -244,6 +244,70 @@ macro_rules! guard {
     };
 }
 
+/// The formatter takes its argument by value; not every error type is `Clone`.
+struct ByRef<'a, E: Spanned>(&'a E);
+impl<E: Spanned> std::fmt::Display for ByRef<'_, E> {
+    fn fmt(&self, f: &mut std::fmt::Formatter) -> std::fmt::Result {
+        self.0.fmt(f)
+    }
+}
+impl<E: Spanned> Spanned for ByRef<'_, E> {
+    fn spans(&self) -> &[Span] {
+        self.0.spans()
+    }
+    fn spanskind(&self) -> cfgrammar::yacc::parser::SpansKind {
+        self.0.spanskind()
+    }
+}
+
+/// "so it can always be rendered": the spans agree with the declared kind of the error (one span
+/// for a plain error, first occurrence + repetitions for a duplication) and the builders'
+/// formatter renders it without panicking; the spans of one duplicated %grmtools key all show the
+/// same key (ASCII case aside: the keys are case-insensitive).
+macro_rules! render_ok {
+    ($o:expr, $what:expr, $text:expr, $e:expr, $warning:expr) => {{
+        use cfgrammar::yacc::parser::SpansKind;
+        use lrpar::diagnostics::{DiagnosticFormatter, SpannedDiagnosticFormatter};
+        let e = $e;
+        let n = e.spans().len();
+        let kind = e.spanskind();
+        let consistent = match kind {
+            SpansKind::Error => n == 1,
+            SpansKind::DuplicationError => n >= 2,
+            _ => true,
+        };
+        if !consistent {
+            $o.fail("wrong", format!("C12/{}/spans-vs-kind", $what), format!("'{e}' is a {kind:?} with {n} spans\n--- input ---\n{}", $text));
+            return $o;
+        }
+        // (only for the %grmtools section parser: a duplicated yacc declaration such as %start
+        // shows the two - possibly different - values)
+        if kind == SpansKind::DuplicationError && $what == "header" {
+            let first = $text[e.spans()[0].start()..e.spans()[0].end()].to_ascii_lowercase();
+            if let Some(other) = e.spans().iter().map(|s| $text[s.start()..s.end()].to_ascii_lowercase()).find(|t| *t != first) {
+                $o.fail("wrong", format!("C12/{}/duplication-spans-differ", $what), format!("'{e}': the occurrences show different text ({first:?} and {other:?})\n--- input ---\n{}", $text));
+                return $o;
+            }
+        }
+        let fmt = SpannedDiagnosticFormatter::new($text, std::path::Path::new("spec"));
+        let _ = $warning;
+        let r = catch(|| fmt.format_warning(ByRef(e)));
+        match r {
+            Ok(out) => {
+                if out.is_empty() {
+                    $o.fail("wrong", format!("C12/{}/rendered-empty", $what), format!("'{e}' renders to nothing\n--- input ---\n{}", $text));
+                    return $o;
+                }
+                $o.class("rendered");
+            }
+            Err(p) => {
+                $o.fail("panic", format!("C12/{}/render/{}", $what, p.signature()), format!("rendering '{e}' panicked: {}\n--- input ---\n{}", p.detail(), $text));
+                return $o;
+            }
+        }
+    }};
+}
+
 impl Prop for C12 {
     fn id(&self) -> &'static str {
         "C12"
@@ -308,7 +372,7 @@ impl Prop for C12 {
         v
     }
     fn rule(&self) -> String {
-        "Texts: 75 specifications extracted from the repository (every .y/.l, the grammar/lexer sections of cttests, %grmtools snippets of the header tests), own generated .y/.l renderings and header snippets, with 0-4 mutations (truncate at any char boundary, delete/duplicate a bracket-quote-brace, splice two files, 25-digit number, multi-byte character (letters, Unicode digits and blanks, combining, 4-byte) at any boundary, an ASCII digit/blank/letter replaced by a multi-byte character of the same Unicode class, remove/insert %%, replace/prepend a %grmtools section, insert a keyword/comment opener, delete/duplicate a line, premature end: the text from some line start on replaced by an unterminated line fragment such as a comment, a declaration or a rule prefix); plus all unmutated files and every prefix of the header snippets. Each text goes through ASTWithValidityInfo::new (5 kinds) and ::from_str, YaccGrammar::new_with_storaget/from_str, ast().warnings(), LRNonStreamingLexerDef::from_str/new_with_options (default flags, and for 1/3 of the texts a random non-empty subset of allow_wholeline_comments, posix_escapes, octal, case_insensitive, ignore_whitespace, multi_line, swap_greed), GrmtoolsSectionParser::parse(required true/false). Oracle: returns within the watchdog, no panic, Ok or non-empty Err, is_valid <=> no errors, every error/warning span inside the text on char boundaries. Evaluation = one text through all entry points. Non-trivial: some parser got past the header into declarations/rules (an error located after the first line or a valid result); distinct by hash(text).".into()
+        "Texts: 75 specifications extracted from the repository (every .y/.l, the grammar/lexer sections of cttests, %grmtools snippets of the header tests), own generated .y/.l renderings and header snippets, with 0-4 mutations (truncate at any char boundary, delete/duplicate a bracket-quote-brace, splice two files, 25-digit number, multi-byte character (letters, Unicode digits and blanks, combining, 4-byte) at any boundary, an ASCII digit/blank/letter replaced by a multi-byte character of the same Unicode class, remove/insert %%, replace/prepend a %grmtools section, insert a keyword/comment opener, delete/duplicate a line, premature end: the text from some line start on replaced by an unterminated line fragment such as a comment, a declaration or a rule prefix); plus all unmutated files and every prefix of the header snippets. Each text goes through ASTWithValidityInfo::new (5 kinds) and ::from_str, YaccGrammar::new_with_storaget/from_str, ast().warnings(), LRNonStreamingLexerDef::from_str/new_with_options (default flags, and for 1/3 of the texts a random non-empty subset of allow_wholeline_comments, posix_escapes, octal, case_insensitive, ignore_whitespace, multi_line, swap_greed), GrmtoolsSectionParser::parse(required true/false). Oracle: returns within the watchdog, no panic, Ok or non-empty Err, is_valid <=> no errors, every error/warning span inside the text on char boundaries, the number of spans agrees with the error's declared kind (one for a plain error, two or more for a duplication; the occurrences of a duplicated %grmtools key all show the same key), and the builders' SpannedDiagnosticFormatter renders every error and warning without panicking. Evaluation = one text through all entry points. Non-trivial: some parser got past the header into declarations/rules (an error located after the first line or a valid result); distinct by hash(text).".into()
     }
     fn assumptions(&self) -> Vec<String> {
         vec!["'promptly' = 5 s for inputs <= 8 KB (normal cost: microseconds), re-confirmed with 50 s in a fresh process".into()]
@@ -346,6 +410,7 @@ impl Prop for C12 {
                             o.fail("wrong", "C12/header/bad-span", format!("'{e}' span {}..{} (text {} bytes)\n{text}", sp.start(), sp.end(), text.len()));
                             return o;
                         }
+                        render_ok!(o, "header", text, e, false);
                     }
                 }
             }
@@ -366,6 +431,7 @@ impl Prop for C12 {
                 if e.spans().iter().any(|s| text[..s.start()].contains('\n')) {
                     deep = true;
                 }
+                render_ok!(o, "yacc", text, e, false);
             }
             let ws = guard!(o, "GrammarAST::warnings", text, ast.ast().warnings());
             for w in &ws {
@@ -374,6 +440,7 @@ impl Prop for C12 {
                     o.fail("wrong", "C12/yacc/bad-warning-span", format!("'{w}' span {}..{}\n{text}", sp.start(), sp.end()));
                     return o;
                 }
+                render_ok!(o, "yacc-warning", text, w, true);
             }
             let g = guard!(o, "YaccGrammar::new_with_storaget", text, YaccGrammar::<u32>::new_with_storaget(yk, text));
             match g {
@@ -458,6 +525,7 @@ impl Prop for C12 {
                         if e.spans().iter().any(|s| text[..s.start()].contains('\n')) {
                             deep = true;
                         }
+                        render_ok!(o, "lex", text, e, false);
                     }
                 }
             }
